@@ -35,6 +35,8 @@ PROP = dict(
         workloads=[
             dict(name="authority-matrix", go_test="TestC12", runner="C12",
                  env=dict(quick=dict(VERIF_HIST=2), thorough=dict(VERIF_HIST=8))),
+            dict(name="liquidation-auction-authority", go_test="TestC12X", runner="C12X",
+                 env=dict(quick=dict(VERIF_HIST=2), thorough=dict(VERIF_HIST=12))),
         ],
         search_env=_search_env,
         rule="case = one message run through the MsgServiceRouter on its own store branch of a prepared state in which THREE accounts each hold one position of every kind "
@@ -46,17 +48,28 @@ PROP = dict(
              "the runner demands that every position message of the regenerated table was run by its owner successfully, by another position owner, and (id-naming messages) by a signer owning the same id of another kind; plus every variant of bindings.ComdexMessages (read off the Go type by reflection) through the real "
              "CustomMessenger.DispatchMsg x chain id {comdex-1, comdex-test3, verif-1, comdex-2} x sender {governance contract, emission contract, the other network's contract, random}; "
              "plus MsgKillSwitch x {admin, 5 others}. non-trivial = a non-owner run of a position message, a wasm case the ladder must reject, a non-admin kill switch; "
-             "distinct by digest of (handler, signer, history length, class) / (variant, chain, sender)",
+             "distinct by digest of (handler, signer, history length, class) / (variant, chain, sender). "
+             "Workload liquidation-auction-authority (TestC12X): the same on the EXTENDED state - one block after a fall of the collateral price (every owner's vault and borrow unhealthy, "
+             "not yet seized), running auctions of every kind a message can bid on (generation-2 dutch of a vault and of a borrow, generation-2 english surplus and debt, generation-1 dutch "
+             "started through MsgLiquidateVault, generation-1 lend dutch started through MsgLiquidateBorrow, generation-1 surplus / debt started by calling the unwired auction.BeginBlocker), "
+             "reserve funds, the shutdown deposit target reached, one genesis token unminted; and the state after MsgExecuteESM + snapshot + cool-off + redemption set-up: every msgServer method of the "
+             "liquidation / auction / liquidationsV2 / auctionsV2 / esm / rewards / collector / tokenmint modules (list computed from the regenerated registry: GuardsCheck.x_matrix_handlers) naming the "
+             "positions of every owner x the same five signers, after a random history of other messages of the list; observed in addition: digest of the balances and records of the position owners that are neither "
+             "signer nor named owner (bystanders); the runner demands that every such method succeeded WITH an effect for the named owner and was attempted by another owner and a stranger; "
+             "plus every custom wasm variant with a payload whose accepted run changes state x chain x sender (a rejected one must leave the branch it ran on untouched)",
         modelled=["baseapp per-message atomicity (Lib/Atomic.v; the harness' execMsg commits the branch only on success exactly like baseapp)",
                   "handlers as guard lists: only the top-level structure of the handler body is modelled (translator trusted to read it; cross-checked by the matrix run)",
                   "wasm VM and contract execution (DispatchMsg is called directly with the contract address)"],
         assumptions=["positions of the fixture state are representative of reachable states (plus random owner histories)",
                      "the reviewed id kinds of lookups and key fields (GuardsCheck.lookup_info / key_kind / owner_fields) are right; a write is recorded by callee name only, so the table does not say that the compared record is the very record later mutated - the chain from the message's own id field to the compared record stands for it",
-                     "the reviewed exemption list (stable-mint vault = shared pool; interest/reward calc only accrue; liquidation is permissionless) is accepted"],
+                     "the reviewed exemption list (stable-mint vault = shared pool; interest/reward calc only accrue; liquidation is permissionless) is accepted",
+                     "the reviewed list GuardsCheck.no_position_msgs (messages that name no existing position of any user: openings, fundings, bids, shutdown, genesis mint - each with its reason) and "
+                     "GuardsCheck.third_party_effect (flows by which a non-position message may pay an account that did not sign: outbid bidder, refund list, genesis recipient) are accepted",
+                     "generation-1 surplus / debt auctions exist in the extended fixture only because the harness calls auction.BeginBlocker, which this tree does not wire"],
     )
 
 MANIFEST = dict(
-    level_text="Finite-table proof over tables REGENERATED from the Go source on every run (registered sdk.Msg types with signer / id fields; for every msgServer method the ordered guard checks, writes and early returns with delegation inlined; DispatchMsg's variant->handler map and each handler's chain-id/sender ladder): every message type that names a position and is not in the reviewed exemption list has an owner comparison or signer-keyed lookup on every path to success (vm_compute + forallb_forall), and every owner comparison on its walk is made on a record fetched through a chain of lookups keyed, link by link, by an id of the kind the lookup expects and starting at a position-id field of the message itself (the translator records which record's owner field is compared and how the record was obtained; a lend looked up by a borrow's own id fails), lifted by a generic lemma to 'for every store, write effect and outcome of the other checks a non-owner is rejected and nothing is committed'; every custom wasm variant on comdex-1 / comdex-test3 is accepted only from its designated contract; MsgKillSwitch only from an admin. The tables are cross-checked against the real code by a matrix run of every handler, naming the positions of each of three owners whose position ids are deliberately misaligned across kinds, x {owner, the two other position owners, an account owning nothing, a fresh account} and every wasm variant x chain x sender.",
+    level_text="Finite-table proof over tables REGENERATED from the Go source on every run (registered sdk.Msg types with signer / id fields; for every msgServer method the ordered guard checks, writes and early returns with delegation inlined; DispatchMsg's variant->handler map and each handler's chain-id/sender ladder): every message type that names a position and is not in the reviewed exemption list has an owner comparison or signer-keyed lookup on every path to success (vm_compute + forallb_forall), and every owner comparison on its walk is made on a record fetched through a chain of lookups keyed, link by link, by an id of the kind the lookup expects and starting at a position-id field of the message itself (the translator records which record's owner field is compared and how the record was obtained; a lend looked up by a borrow's own id fails), lifted by a generic lemma to 'for every store, write effect and outcome of the other checks a non-owner is rejected and nothing is committed'; every custom wasm variant on comdex-1 / comdex-test3 is accepted only from its designated contract; MsgKillSwitch only from an admin. Every registered message of a DeFi module is classified (owner-guarded / signer-keyed / exempt / names no position / admin: c12_classification_closed) and belongs to one of the two matrices (c12_matrices_cover_registry). The tables are cross-checked against the real code by a matrix run of every handler, naming the positions of each of three owners whose position ids are deliberately misaligned across kinds, x {owner, the two other position owners, an account owning nothing, a fresh account} and every wasm variant x chain x sender; and by the extended matrix (liquidation, bids on running auctions of both generations, reserve funds, shutdown, reward programmes, refund, genesis mint; custom messages with effect payloads) on a state with unhealthy positions and running auctions, where additionally no message may change the balances or records of an account that neither signed it nor is named by it except through the reviewed flows.",
     design_ref="DESIGN.md section 4 C12",
     level_note="Trusted: Coq kernel, the translator tools/goextract (unrecognised shapes fail closed; dynamic cross-check), extraction, OCaml runner, Go harness; baseapp atomicity modelled. On chain ids other than the two named networks the wasm ladder accepts every sender (theorem c12_wasm_other_chain_accepts). No axioms.",
     technique="Coq proof by computation over regenerated tables + generic guard-list lemma + authority matrix run against the real msg servers and the real CustomMessenger",
